@@ -346,5 +346,17 @@ func appendMirror(o *Oracle, oc *Outcome, s *solver.Solver, cl *solver.Clause, o
 	if !ok {
 		oc.Fail("corr", "append-mirror", "solver.AppendClause", "op %d: top level %v, constraint %v*%v >= %d (explicit weights: %v): Go did %q, the mirror GS.Append.appendSimplify says %q", opIdx, pre.top, pre.c.Weights, pre.c.Lits, pre.c.AtLeast, pre.pb, got, want)
 	}
+	// a literal recorded as a top-level fact is true at the top level from then on, unless the
+	// problem is refuted
+	if st1 != solver.Unsat && len(facts1) > len(facts0) {
+		lv := s.VerifModelLevels()
+		for _, f := range facts1[len(facts0):] {
+			v := absInt(f)
+			if v > len(lv) || !(lv[v-1] == 1 && f > 0 || lv[v-1] == -1 && f < 0) {
+				oc.Fail("spec", "facts-hold", "solver.AppendClause", "op %d: %d was recorded as a fact but is not bound true at the top level (binding %v) and the solver is not refuted", opIdx, f, lv)
+				break
+			}
+		}
+	}
 	oc.Tag("append-mirror:" + strings.SplitN(want, " ", 2)[0])
 }
